@@ -90,3 +90,23 @@ package phttp
 //@ props C09 C11
 //@ ensures [one-client-per-gun] fresh(result) && calls(clientConstructor) == 1 && result.Client == result_of(clientConstructor, 0)
 //@ at call clientConstructor assert [built-from-the-gun-configuration] arg(a0) == cfg.Client && arg(a1) == cfg.Target
+
+// Each traced request gets its own tracer and its own timings record.
+//@ func CreateHTTPTrace
+//@ props C09 C19 C11
+//@ modifies nothing
+//@ ensures result0 != nil && fresh(result0) && result1 != nil && fresh(result1)
+
+// Timing getters only read the timings record.
+//@ func (t *TraceTimings) GetReceiveTime
+//@ props C19 C09
+//@ modifies nothing
+//@ func (t *TraceTimings) GetConnectTime
+//@ props C19 C09
+//@ modifies nothing
+//@ func (t *TraceTimings) GetSendTime
+//@ props C19 C09
+//@ modifies nothing
+//@ func (t *TraceTimings) GetLatency
+//@ props C19 C09
+//@ modifies nothing
